@@ -5,5 +5,6 @@ log=$1; shift
 for s in "$@"; do
   id=${s%/*}; x=${s#*/}
   echo "== $id/$x" >> $log
-  timeout 3000 /verif/tools/mutant_run.sh /verif/seeded/$id/$x/patch.diff $id quick 2>&1 | tail -6 >> $log
+  pf=/verif/seeded/$id/$x/patch_rebased.diff; [ -f $pf ] || pf=/verif/seeded/$id/$x/patch.diff   # rebased onto a later repair where the original no longer applies
+  timeout 3000 /verif/tools/mutant_run.sh $pf $id quick 2>&1 | tail -6 >> $log
 done
